@@ -20,6 +20,8 @@ def plan(ctx):
         items.append(('gen', engine.stable_hash((ctx.seed, 'c02', i))))
     for i in range(ctx.n(500, 8000)):
         items.append(('real', engine.stable_hash((ctx.seed, 'c02r', i))))
+    for i in range(ctx.n(40, 600)):
+        items.append(('paced', engine.stable_hash((ctx.seed, 'c02p', i))))
     return items
 
 
@@ -164,9 +166,45 @@ def gen_input(rng, kind_hint=None):
     return 'no-hunk-sections', [l.encode() for _, l in rl], [r for r, _ in rl], True
 
 
+def run_paced(rng):
+    """Line-by-line feeding: at no point may more output lines exist than input lines were given (git add -p reads
+    the filter's output line by line against its own hunks), and at EOF the counts are equal."""
+    from . import c11
+    cli, cfgtext, cls, exempt = gen_config(rng)
+    kind, lines, roles, trailing = gen_input(rng)
+    args = gen.to_args(cli)
+    if cfgtext is not None:
+        args = ['--config', runner.write_file('c02p.gitconfig', cfgtext)] + args
+    p = c11.Paced(args)
+    if not p.pid:
+        p.finish()
+        return inconclusive('could not find the delta process')
+    sets = {'input_kinds': [kind + ':paced'], 'option_classes': cls}
+    p.quiesce()
+    for k, l in enumerate(lines):
+        p.feed(l)
+        if not p.quiesce():
+            p.finish()
+            return inconclusive('quiescence not reached', sets=sets)
+        n_out = p.written.count(b'\n')
+        if n_out > k + 1:
+            p.finish()
+            return violated('c02:paced:output-ahead-of-input', 'after %d input lines delta had already written %d lines' % (k + 1, n_out), k + 1, n_out,
+                            sets=sets, extra={'args': args, 'input': [x.decode('utf-8', 'replace') for x in lines[:k + 1]]})
+    rc, err, _ = p.finish()
+    n_out = p.written.count(b'\n')
+    if rc != 0 or n_out != len(lines):
+        return violated('c02:paced:line-count', 'line-by-line fed run: %d output lines for %d input lines (rc %d)' % (n_out, len(lines), rc), len(lines), n_out,
+                        sets=sets, extra={'args': args})
+    return held(sig=('paced', kind, tuple(sorted(cls)), len(lines)), nontrivial=True, counters={'paced_points': len(lines), 'input_lines': len(lines)},
+                sets=sets)
+
+
 def run_item(item):
     kind0, seed = item
     rng = engine.item_rng(seed)
+    if kind0 == 'paced':
+        return run_paced(rng)
     cli, cfgtext, cls, exempt = gen_config(rng)
     roles = None
     if kind0 == 'real':
